@@ -89,7 +89,7 @@ class _Unbound(type):
         return cls[s.lstrip('1234567890.*')](s)
 
     def __getitem__(cls, s):
-        if s.startswith('1234567890.*'):
+        if s[:1] and s[:1] in '1234567890.*':
             raise ValueError('unit cannot start with a numeral')
         return _Bound('{}:{}'.format(cls.__name__, s), (float,), dict(_parse=cls._parse, _unit=s))
 
